@@ -87,6 +87,7 @@ bool LoadScenario(const js::J& j, Scenario* s, string* err) {
       for (auto& kv : oj["faults"].o) op.cfg.faults[kv.first] = LoadFault(kv.second);
       for (auto& kv : oj["env"].o) op.cfg.env[kv.first] = kv.second.s;
       op.cfg.allow_interrupt = oj["interrupt"].boolean(false);
+      op.crash = oj["crash"].boolean(false);
       op.cfg.subsets = oj["subsets"].boolean(true);
       for (auto& e : oj["edits_during"].a)
         op.cfg.edits_during.push_back(make_tuple(e["when"].str(), e["path"].str(), e["content"].str()));
